@@ -588,22 +588,203 @@ def _yaml(ctx, names):
             if not (PS == P2 and int(PS.i) == int(P2.i) and int(PS.j) == int(P2.j) and cm.same_bits(np.asarray(PS.R), np.asarray(P2.R))
                     and cm.same_bits(PS.dx, P2.dx)):
                 ctx.violation('yaml-roundtrip-differs:PairState', 'reloaded PairState differs', dict(crystal=name, state=str(PS)))
-        try:
-            cls_ = cluster.makeclusters(crys, cut, 2)
-        except Exception:
-            cls_ = []
-        for cset in cls_[:4]:
-            for cl in list(cset)[:2]:
-                ctx.count('yaml:Cluster')
-                c2 = yaml.load(yaml.dump(cl), Loader=yaml.Loader)
-                if not (cl == c2 and hash(cl) == hash(c2) and len(cl) == len(c2)):
-                    ctx.violation('yaml-roundtrip-differs:Cluster', 'reloaded Cluster differs', dict(crystal=name, cluster=str(cl)))
-                for site in cl.sites:
-                    ctx.count('yaml:ClusterSite')
-                    s2 = yaml.load(yaml.dump(site), Loader=yaml.Loader)
-                    if not (site == s2 and tuple(site.ci) == tuple(s2.ci) and cm.same_bits(np.asarray(site.R), np.asarray(s2.R))):
-                        ctx.violation('yaml-roundtrip-differs:ClusterSite', 'reloaded ClusterSite differs', dict(crystal=name, site=str(site)))
         ctx.case(('yaml-objects', name))
+
+
+# ---------------------------------------------------------------- every flag combination x every serialisation format
+def _state_diff(a, b, path='', depth=0):
+    """first difference between two object states (exact; sets and dict keys as sets), or None"""
+    if depth > 8: return None
+    if isinstance(a, (str, bytes, bool, type(None))) or isinstance(b, (str, bytes, bool, type(None))):
+        return None if (type(a) == type(b) and a == b) else '%s: %r / %r' % (path, a, b)
+    if hasattr(a, '_fields') and hasattr(b, '_fields'):
+        if a._fields != b._fields: return path + ': fields'
+        for f in a._fields:
+            d = _state_diff(getattr(a, f), getattr(b, f), path + '.' + f, depth + 1)
+            if d: return d
+        return None
+    if isinstance(a, dict) and isinstance(b, dict):
+        if set(a) != set(b): return path + ': keys %s / %s' % (sorted(map(str, a))[:6], sorted(map(str, b))[:6])
+        for k in a:
+            d = _state_diff(a[k], b[k], path + '[%s]' % (k,), depth + 1)
+            if d: return d
+        return None
+    if isinstance(a, (set, frozenset)) and isinstance(b, (set, frozenset)):
+        return None if a == b else path + ': sets differ'
+    if isinstance(a, (list, tuple)) and isinstance(b, (list, tuple)):
+        if len(a) != len(b): return path + ': lengths %d / %d' % (len(a), len(b))
+        for i, (x, y) in enumerate(zip(a, b)):
+            d = _state_diff(x, y, path + '[%d]' % i, depth + 1)
+            if d: return d
+        return None
+    if isinstance(a, (np.ndarray, np.generic, int, float, complex)) and isinstance(b, (np.ndarray, np.generic, int, float, complex)):
+        xa, xb = np.asarray(a), np.asarray(b)
+        if xa.shape != xb.shape: return path + ': shape %s / %s' % (xa.shape, xb.shape)
+        if xa.dtype.kind in 'iub' and xb.dtype.kind in 'iub':
+            return None if np.array_equal(xa, xb) else path + ': integers differ'
+        if xa.dtype.kind != xb.dtype.kind: return path + ': dtype kind %s / %s' % (xa.dtype.kind, xb.dtype.kind)
+        return None if np.ascontiguousarray(xa.astype(complex)).tobytes() == np.ascontiguousarray(xb.astype(complex)).tobytes() \
+            else path + ': values differ'
+    if hasattr(a, '__dict__') and hasattr(b, '__dict__') and type(a) == type(b):
+        return _state_diff(vars(a), vars(b), path, depth + 1)
+    return None if type(a) == type(b) and a == b else '%s: %r / %r' % (path, a, b)
+
+
+def _outcome(fn):
+    try: return ('ok', fn())
+    except Exception as e: return ('raises', type(e).__name__)
+
+
+def _observables(obj, order_level):
+    """what a user can ask the object: zero-argument methods (public and the container/str/hash dunders), items"""
+    import inspect
+    obs = {}
+    for nm, m in inspect.getmembers(type(obj), predicate=inspect.isfunction):
+        if nm.startswith('__') and nm not in ('__len__', '__hash__', '__str__'): continue
+        if nm.startswith('_') and not nm.startswith('__') and nm != '_asdict': continue
+        try:
+            params = [p for p in list(inspect.signature(m).parameters.values())[1:]
+                      if p.default is inspect.Parameter.empty and p.kind in (p.POSITIONAL_ONLY, p.POSITIONAL_OR_KEYWORD)]
+        except (TypeError, ValueError):
+            continue
+        if params: continue
+        if not order_level and nm in ('__str__', '_asdict'): continue
+        obs[nm] = _outcome(lambda m=m: m(obj))
+    if hasattr(type(obj), '__len__') and hasattr(type(obj), '__getitem__') and not hasattr(obj, '_fields') and order_level:
+        n = _outcome(lambda: len(obj))
+        if n[0] == 'ok': obs['items'] = _outcome(lambda: [obj[i] for i in range(n[1])])
+    return obs
+
+
+def _flag_combos(cls):
+    """all combinations of the boolean keyword flags of the constructor (found by inspection, not by name)"""
+    import inspect
+    try:
+        sig = inspect.signature(cls.__init__ if '__init__' in vars(cls) else cls.__new__)
+    except (TypeError, ValueError):
+        return [{}], []
+    flags = [p.name for p in sig.parameters.values() if isinstance(p.default, bool)]
+    return [dict(zip(flags, v)) for v in itertools.product([False, True], repeat=len(flags))], flags
+
+
+def _roundtrip_formats(ctx, obj, label, rebuild_kwargs, state_flags_default, extra=None):
+    """one object through every serialisation format there is for its class; compare by ==, hash, state, accessors"""
+    import yaml, pickle, copy
+    cls = type(obj)
+    formats = {'yaml': lambda: yaml.load(yaml.dump(obj), Loader=yaml.Loader),
+               'pickle': lambda: pickle.loads(pickle.dumps(obj)),
+               'deepcopy': lambda: copy.deepcopy(obj)}
+    if hasattr(obj, '_asdict'):
+        formats['dict'] = lambda: cls(**obj._asdict())
+    name = cls.__name__
+    for fmt, fn in formats.items():
+        ctx.count('serial:%s:%s' % (name, fmt))
+        rep = dict(cls=name, format=fmt, object=str(obj), built_with=label)
+        res = _outcome(fn)
+        if res[0] == 'raises':
+            ctx.violation('%s-roundtrip-raises:%s:%s' % (fmt, name, res[1]), '%s round trip of a %s raises %s' % (fmt, name, res[1]), rep)
+            continue
+        o2 = res[1]
+        bad = None
+        if type(o2) != cls: bad = 'type %s' % type(o2).__name__
+        elif not (obj == o2) or not (o2 == obj) or (obj != o2): bad = 'reloaded object != original'
+        elif _outcome(lambda: hash(obj)) != _outcome(lambda: hash(o2)): bad = 'hash differs'
+        else:
+            o1obs, o2obs = _observables(obj, state_flags_default), _observables(o2, state_flags_default)
+            for k in o1obs:
+                d = None
+                if o1obs[k][0] != o2obs[k][0]: d = '%s: %s / %s' % (k, o1obs[k], o2obs[k])
+                elif o1obs[k][0] == 'raises': d = None if o1obs[k][1] == o2obs[k][1] else '%s raises %s / %s' % (k, o1obs[k][1], o2obs[k][1])
+                else: d = _state_diff(o1obs[k][1], o2obs[k][1], k + '()')
+                if d: bad = 'accessor ' + d; break
+            if not bad and state_flags_default:
+                d = _state_diff(obj, o2, name)
+                if d: bad = 'state ' + d
+            if not bad and extra is not None and state_flags_default:
+                bad = extra(obj, o2)
+        if bad:
+            ctx.violation('%s-roundtrip-differs:%s' % (fmt, name), '%s round trip of a %s: %s' % (fmt, name, bad), dict(rep, difference=bad))
+
+
+def _serial_objects(ctx, names):
+    """Cluster / ClusterSite / PairState / GroupOp / vacancyThermoKinetics (whatever is registered with PyYAML from the
+    onsager package): instances for every combination of the constructor's boolean flags, hand-built and made by the
+    library's own generators, through YAML, dict, pickle and deepcopy."""
+    import yaml
+    from onsager import crystal, crystalStars as stars, cluster, OnsagerCalc
+    rng = ctx.rng
+    registered = sorted({c.__name__ for c in yaml.Dumper.yaml_representers if getattr(c, '__module__', '').startswith('onsager')})
+    ctx.note('classes registered with PyYAML by onsager: %s' % ', '.join(registered))
+    covered = set()
+
+    def go(obj, label, flags_default=True, extra=None):
+        covered.add(type(obj).__name__)
+        _roundtrip_formats(ctx, obj, label, None, flags_default, extra)
+
+    for name in names:
+        crys, chem, cut = cm.get(name)
+        jn = crys.jumpnetwork(chem, cut)
+
+        def cl_extra(a, b, crys=crys):
+            for g in list(crys.G)[:3]:
+                if not (a.g(crys, g) == b.g(crys, g)): return 'g() images differ'
+            return _state_diff(a.pairdistances(crys), b.pairdistances(crys), 'pairdistances')
+
+        # --- clusters: every flag combination, hand-built
+        combos, flags = _flag_combos(cluster.Cluster)
+        probe = [cluster.ClusterSite(ci=ci, R=np.zeros(crys.dim, dtype=int)) for ci in crys.atomindices[:2]] * 2
+        statekeys = set()
+        for kw in combos:
+            r = _outcome(lambda: cluster.Cluster(probe[:3], **kw)._asdict())
+            if r[0] == 'ok': statekeys |= set(r[1])
+        for t in range(3):
+            nsite = rng.randint(2, 4)
+            sites, seen = [], set()
+            while len(sites) < nsite:
+                ci = rng.choice(crys.atomindices); R = tuple(rng.randint(-1, 1) for _ in range(crys.dim))
+                if (ci, R) not in seen:
+                    seen.add((ci, R)); sites.append(cluster.ClusterSite(ci=ci, R=np.array(R)))
+            for kw in combos:
+                made = _outcome(lambda: cluster.Cluster(sites, **kw))
+                if made[0] != 'ok': continue
+                default_nonstate = all((not v) for k, v in kw.items() if k not in statekeys)
+                ctx.count('cluster-flags:' + ','.join(k for k, v in kw.items() if v) or 'cluster-flags:plain')
+                go(made[1], 'Cluster(%d sites, %s)' % (nsite, kw), default_nonstate, cl_extra)
+                ctx.case(('cluster', name, t, tuple(sorted(kw.items()))), nontrivial=any(kw.values()))
+        # --- clusters made by the library: plain, vacancy, transition-state of both
+        exps = {}
+        r = _outcome(lambda: cluster.makeclusters(crys, cut, 2))
+        if r[0] == 'ok':
+            exps['makeclusters'] = r[1]
+            rv = _outcome(lambda: cluster.makeVacancyClusters(crys, chem, r[1]))
+            if rv[0] == 'ok': exps['makeVacancyClusters'] = rv[1]
+            for src in list(exps):
+                rt = _outcome(lambda: cluster.makeTSclusters(crys, chem, jn, exps[src]))
+                if rt[0] == 'ok': exps['makeTSclusters(%s)' % src] = rt[1]
+        for how, exp in exps.items():
+            picked = [cl for cset in exp for cl in list(cset)[:1]]
+            for cl in rng.sample(picked, min(3, len(picked))):
+                ctx.count('cluster-made-by:' + how)
+                go(cl, how, True, cl_extra)
+                for site in cl.sites[:2]: go(site, how)
+            ctx.case(('cluster-lib', name, how))
+        # --- pair states, group operations, thermo-kinetics keys
+        ss = stars.StarSet(jn, crys, chem, 2)
+        for PS in rng.sample(ss.states, min(3, len(ss.states))) + [stars.PairState.zero(0, crys.dim)]:
+            go(PS, 'StarSet state')
+        for g in rng.sample(list(crys.G), min(3, len(crys.G))): go(g, 'crys.G')
+    for t in range(3):
+        n1, n2 = rng.randint(1, 3), rng.randint(1, 3)
+        k = OnsagerCalc.vacancyThermoKinetics(pre=np.array([rng.random() + .5 for _ in range(n1)]), betaene=np.array([rng.gauss(0, 1) for _ in range(n1)]),
+                                              preT=np.array([rng.random() + .5 for _ in range(n2)]), betaeneT=np.array([rng.gauss(0, 1) for _ in range(n2)]))
+        covered.add('vacancyThermoKinetics')
+        import yaml as _y
+        k2 = _outcome(lambda: _y.load(_y.dump(k), Loader=_y.Loader))
+        ctx.count('serial:vacancyThermoKinetics:yaml')
+        if k2[0] != 'ok' or not (k2[1] == k) or hash(k2[1]) != hash(k) or _state_diff(list(k), list(k2[1]), 'vTK'):
+            ctx.violation('yaml-roundtrip-differs:vacancyThermoKinetics', 'reloaded key differs or raises: %s' % (k2[:2],), dict(key=repr(k)))
+    for c in registered:
+        if c not in covered: ctx.note('YAML-registered class without instances in this check: ' + c)
 
 
 # ---------------------------------------------------------------- driver
@@ -636,6 +817,7 @@ def _run(ctx, search=False):
     if not ctx.quick: _ext_methods(ctx, 'fcc')
     _taylor_roundtrip(ctx, 30 if ctx.quick else 600)
     _yaml(ctx, ['sq', 'hon', 'fcc', 'hcp', 'b2', 'tric'] if ctx.quick else cm.ALL_NAMES)
+    _serial_objects(ctx, ['hcp', 'b2', 'hon', 'rect2'] if ctx.quick else ['hcp', 'b2', 'hon', 'rect2', 'fcc', 'dia', 'tric', 'sq', 'pol3'])
 
 
 def run(ctx):
